@@ -410,9 +410,8 @@ std::string Preprocessor::expandMacros(const std::string &line) {
                     result.replace(pos, name.length(), macro.body);
                     changed = true;
                     pos += macro.body.length();
-                    // 文字列範囲を再計算（置換のたびに行う）
+                    // 文字列範囲を再計算（置換のたびに行い、同じマクロの残りの出現も続けて処理する）
                     recompute_string_ranges();
-                    break;
                 } else {
                     pos += name.length();
                 }
